@@ -544,7 +544,9 @@ func TestVerif(t *testing.T) {
 		// texts that YAML does not read as strings: a secret is whatever the user's secret is
 		"#S3cr3t!", "~", "null", "12345", "true", "0x1F", "1e3", "2021-01-01", "[a, b]", "a: b",
 		// characters that mean something to the configuration machinery itself (expansion syntax, key separators)
-		"pa$$w0rd", "$ecret", "tok${env:HOME}en", "a::b", "${", "$"}
+		"pa$$w0rd", "$ecret", "tok${env:HOME}en", "a::b", "${", "$",
+		// surrounding whitespace and line breaks are part of the secret (a PEM block, a token read from a file)
+		"tok\n", "tok\r\n", " tok ", "\ttok", "\n", " "}
 	quick := ctx.Quick()
 	base := c14Renderings("BASELINE-other-secret", quick)
 	check := func(sec, onlyPath string) {
